@@ -32,11 +32,18 @@ extern "C" void harness(void) {
     ShapeRef *A = new ShapeRef(router, ra), *B = 0;
     new ShapeConnectionPin(A, 1, ATTACH_POS_RIGHT, ATTACH_POS_CENTRE, true, 0.0, ConnDirRight);
     new ShapeConnectionPin(A, 1, ATTACH_POS_LEFT, ATTACH_POS_CENTRE, true, 0.0, ConnDirLeft);
+#ifdef CONCRETE_END
+    double ex = 150; double ey = 40;            // lifecycle histories are the subject here, not geometry
+#else
     double ex = verif_coord(140, 160); double ey = verif_coord(0, 80);
+#endif
     ConnRef *c1 = new ConnRef(router, ConnEnd(A, 1), ConnEnd(Point(ex, ey))), *c2 = 0;
     bool aAlive = true, c1Alive = true, aProcessed = false;
     // the history may start from a processed scene or from one whose additions are all still queued
-    if (verif_choice(2)) { router->processTransaction(); aProcessed = true; }
+#ifndef INITIAL
+#define INITIAL 2
+#endif
+    if (INITIAL == 1 || (INITIAL == 2 && verif_choice(2))) { router->processTransaction(); aProcessed = true; }
     for (int step = 0; step < NSTEPS; step++) {
         int op = verif_choice(7);
         if (op == 0) { router->processTransaction(); aProcessed = true; }
@@ -47,10 +54,20 @@ extern "C" void harness(void) {
             ASSUME(aAlive && (aProcessed || TRANS == 0)); router->deleteShape(A); aAlive = false; }
         else if (op == 4) { ASSUME(c1Alive); router->deleteConnector(c1); c1Alive = false; }
         else if (op == 5) { ASSUME(aAlive && c2 == 0); c2 = new ConnRef(router, ConnEnd(A, 1), ConnEnd(Point(0, 90))); }
-        else { ASSUME(c1Alive); double nx = verif_coord(140, 160); double ny = verif_coord(0, 80); c1->setDestEndpoint(ConnEnd(Point(nx, ny))); }
+        else {
+            ASSUME(c1Alive);
+#ifdef CONCRETE_END
+            double nx = 145; double ny = verif_coord(0, 80);
+#else
+            double nx = verif_coord(140, 160); double ny = verif_coord(0, 80);
+#endif
+            c1->setDestEndpoint(ConnEnd(Point(nx, ny))); }
     }
     // optionally process whatever is queued before tearing down (otherwise the router is destroyed with queued actions)
-    if (verif_choice(2)) router->processTransaction();
+#ifndef FINAL
+#define FINAL 2
+#endif
+    if (FINAL == 1 || (FINAL == 2 && verif_choice(2))) router->processTransaction();
     if (c1Alive) verif_out_int((int)c1->displayRoute().size());
     WITNESS_POINT();
     delete router;
